@@ -17,6 +17,7 @@
 //!   R8  `format!(..)` -> `vx_opaque_string()` (an arbitrary String)
 //!   R12 `X.retain(|e| P)` -> explicit filter loop (Vec: swap + by-value for; VecDeque: rotate once)
 //!   R13 `for x in &mut V` -> counted while loop over `&mut V[i]`
+//!   R15 `for x in V.into_iter().rev()` -> `let mut t = V; while t.len() > 0 { let x = t.pop().unwrap(); .. }`
 //!   R11 reference patterns in `for` / closure parameters / `Some(&x)` -> bind + deref
 //!   RS  pinned statement replacement   (request: replace_stmt)
 //!   RE  pinned expression replacement  (request: replace_expr)
@@ -493,6 +494,34 @@ impl<'a> VisitMut for Rw<'a> {
     }
 
     fn visit_expr_mut(&mut self, e: &mut Expr) {
+        if self.enabled("R15") {
+            // `for x in V.into_iter().rev() { .. }` (V a Vec taken by value) -> pop from the back until empty
+            if let Expr::ForLoop(f) = e {
+                if f.label.is_none() {
+                    if let Expr::MethodCall(rv) = &*f.expr {
+                        if rv.method == "rev" && rv.args.is_empty() {
+                            if let Expr::MethodCall(ii) = &*rv.receiver {
+                                if ii.method == "into_iter" && ii.args.is_empty() {
+                                    let v = &ii.receiver;
+                                    let t = self.fresh("rv");
+                                    let pat = &f.pat;
+                                    let stmts = &f.body.stmts;
+                                    let ne: Expr = parse_quote!({
+                                        let mut #t = #v;
+                                        while #t.len() > 0 {
+                                            let #pat = #t.pop().unwrap();
+                                            #(#stmts)*
+                                        }
+                                    });
+                                    *e = ne;
+                                    self.bump("R15.rev_by_value");
+                                }
+                            }
+                        }
+                    }
+                }
+            }
+        }
         if self.enabled("R13") {
             if let Expr::ForLoop(f) = e {
                 let target: Option<Expr> = match &*f.expr {
@@ -1210,7 +1239,13 @@ fn do_fn(items: &[Item], req: &ItemReq, feats: &[String]) -> std::result::Result
         }
     }
     // body / fn-end markers
-    let has_tail = matches!(block.stmts.last(), Some(Stmt::Expr(_, None)));
+    let unit_ret = matches!(sig.output, ReturnType::Default);
+    let blocklike_tail = matches!(
+        block.stmts.last(),
+        Some(Stmt::Expr(Expr::If(_) | Expr::Match(_) | Expr::ForLoop(_) | Expr::While(_) | Expr::Loop(_) | Expr::Block(_), None))
+    );
+    // a unit function ending in a block-like expression: that expression is a statement, the end of the function is behind it
+    let has_tail = matches!(block.stmts.last(), Some(Stmt::Expr(_, None))) && !(unit_ret && blocklike_tail);
     let endm = mac_stmt("__vx_fnend", None);
     if has_tail {
         let n = block.stmts.len();
